@@ -87,7 +87,7 @@ def main(argv):
         shutil.rmtree(tmp, ignore_errors=True)
     result["wall_s"] = round(time.time() - t0, 3)
     with open(outfile, "w") as f:
-        json.dump(result, f, ensure_ascii=False, default=repr)
+        json.dump(result, f, ensure_ascii=True, default=repr)
     return 0
 
 
